@@ -64,6 +64,9 @@ pub enum Insertion {
     /// foreign attribute on start tag number `at` (mod count) under a second namespace name that the same start tag binds
     /// to the URL of extension number `which` (mod count) declared on the root element
     AttrAlias { at: u16, which: u8, local: String },
+    /// not foreign content but a spelling of the whole document, applied to the file without foreign content as well:
+    /// every line feed inside a CDATA section is written as CR LF (which XML reads as a line feed again)
+    RawCrLf,
 }
 
 #[derive(Clone, Serialize, Deserialize)]
@@ -90,6 +93,11 @@ pub enum Case {
         /// refuses the prototype, or the file reads back with each record under the name it was written with
         #[serde(default)]
         other_case: bool,
+        /// as another producer may write it: the extension records carry no prefix, each one declares the extension's URL
+        /// as its default namespace (`<intensity xmlns="urn:..." .../>`): they stay extension records, reported without
+        /// a prefix
+        #[serde(default)]
+        own_default_ns: bool,
     },
 }
 
@@ -182,7 +190,10 @@ fn scan(xml: &str) -> Scan {
 
 /// Content that is character data, a comment or a processing instruction although it reads like markup.
 fn looks_like_markup(kind: u8) -> &'static str {
+    static SHREDDED: std::sync::OnceLock<String> = std::sync::OnceLock::new();
     match kind % 8 {
+        // character data in thousands of adjacent pieces (readers may prepare such documents in a special way)
+        5 => SHREDDED.get_or_init(|| "<![CDATA[ab]]>".repeat(3000)).as_str(),
         1 => "<![CDATA[<!DOCTYPE html><html><data3D></e57Root>]]>",
         2 => "<!-- <!DOCTYPE x [ <!ENTITY a 'b'> ]> </e57Root> <data3D type='Vector'> -->",
         3 => "<?report <!DOCTYPE y> </e57Root> ?>",
@@ -268,6 +279,7 @@ fn apply(xml: &str, ins: &[Insertion]) -> String {
                 let url = urls[*which as usize % urls.len()];
                 edits.push((pos, format!(" xmlns:zzattr{which}=\"{url}\" zzattr{which}:{local}=\"1\"")));
             }
+            Insertion::RawCrLf => {}
             Insertion::InLeaf { at, local, text, front } => {
                 if sc.leaf_ends.is_empty() {
                     continue;
@@ -303,6 +315,18 @@ fn apply(xml: &str, ins: &[Insertion]) -> String {
             }
         }
         out.insert_str(pos, &text);
+    }
+    if ins.iter().any(|i| matches!(i, Insertion::RawCrLf)) {
+        let mut spelt = String::with_capacity(out.len() + 64);
+        let mut rest = out.as_str();
+        while let Some(p) = rest.find("<![CDATA[") {
+            let end = rest[p..].find("]]>").map(|e| p + e).unwrap_or(rest.len());
+            spelt.push_str(&rest[..p]);
+            spelt.push_str(&rest[p..end].replace("\r\n", "\n").replace('\n', "\r\n"));
+            rest = &rest[end..];
+        }
+        spelt.push_str(rest);
+        out = spelt;
     }
     out
 }
@@ -349,6 +373,9 @@ fn local_name(s: &mut Src) -> String {
 }
 
 fn insertion(s: &mut Src) -> Insertion {
+    if s.chance(1, 25) {
+        return Insertion::RawCrLf;
+    }
     if s.chance(1, 8) {
         return if s.flag() { Insertion::Alias { at: s.u16(), which: s.byte(), local: local_name(s) } } else { Insertion::AttrAlias { at: s.u16(), which: s.byte(), local: local_name(s) } };
     }
@@ -419,7 +446,7 @@ impl Check for C18 {
             let k = 1 + s.below(3) as usize;
             let proto_names = (0..k).map(|_| if s.chance(2, 3) { crate::adapt::STD_NAMES[s.below(20) as usize].0.to_string() } else { crate::gen::ext_name(s) }).collect();
             let suffix = if s.chance(1, 4) { Some(s.pick(&[".x", "\u{e9}", "-2.b", ".", "\u{b7}1"]).to_string()) } else { None };
-            Case::ProtoExt { proto_names, n: s.below(20) as u32, seed: s.u64(), suffix, nested_ns: s.chance(1, 5), twin: s.chance(1, 6), other_case: s.chance(1, 8) }
+            Case::ProtoExt { proto_names, n: s.below(20) as u32, seed: s.u64(), suffix, nested_ns: s.chance(1, 5), twin: s.chance(1, 6), other_case: s.chance(1, 8), own_default_ns: s.chance(1, 6) }
         } else {
             let program = small_program(s);
             let k = 1 + s.below(4) as usize;
@@ -450,9 +477,12 @@ impl Check for C18 {
                         Insertion::Alias { .. } => v.nt("foreign_element_binding_another_name_to_an_extension_url"),
                         Insertion::AttrAlias { .. } => v.nt("foreign_attribute_binding_another_name_to_an_extension_url"),
                         Insertion::Attr { .. } => v.label("foreign_attribute"),
+                        Insertion::RawCrLf => v.label("line_feeds_in_cdata_spelt_cr_lf"),
                     }
                 }
-                let plain = match guard(|| write_with(program, &[])) {
+                // a spelling of the whole document belongs to the file without foreign content as well
+                let spelling: Vec<Insertion> = insertions.iter().filter(|i| matches!(i, Insertion::RawCrLf)).cloned().collect();
+                let plain = match guard(|| write_with(program, &spelling)) {
                     Ok(Ok(b)) => b,
                     _ => {
                         v.label("writer_error_out_of_scope");
@@ -534,7 +564,7 @@ impl Check for C18 {
                     }
                 }
             }
-            Case::ProtoExt { proto_names, n, seed, suffix, nested_ns, twin, other_case } => {
+            Case::ProtoExt { proto_names, n, seed, suffix, nested_ns, twin, other_case, own_default_ns } => {
                 let mut proto: Vec<Rec> = ["cartesianX", "cartesianY", "cartesianZ"].iter().map(|n| Rec { prefix: None, name: n.to_string(), ty: RType::Single { min: None, max: None } }).collect();
                 let mut used: Vec<String> = Vec::new();
                 for (i, name) in proto_names.iter().enumerate() {
@@ -574,6 +604,14 @@ impl Check for C18 {
                         if k % 2 == 0 {
                             r.prefix = Some(["Vfx", "VFX", "vfX"][k / 2 % 3].into());
                         }
+                    }
+                }
+                let default_ns_active = *own_default_ns && !twin_active && !other_case_active && suffix.is_none() && !*nested_ns && !used.is_empty();
+                if default_ns_active {
+                    v.nt("extension_records_in_a_default_namespace_of_their_own");
+                    for name in &used {
+                        pairs.push((format!("<{PREFIX}:{name} "), format!("<{name} xmlns=\"{URI}\" ")));
+                        pairs.push((format!("</{PREFIX}:{name}>"), format!("</{name}>")));
                     }
                 }
                 let uri = if twin_active { "urn:verif:foreign-extension?a=1&b=<2>" } else { URI };
@@ -619,6 +657,11 @@ impl Check for C18 {
                         if let (Some(sfx), Some(Op::Cloud(c))) = (suffix, p.ops.get_mut(1)) {
                             for r in c.proto.iter_mut().filter(|r| r.prefix.is_some()) {
                                 r.name.push_str(sfx);
+                            }
+                        }
+                        if let (true, Some(Op::Cloud(c))) = (default_ns_active, p.ops.get_mut(1)) {
+                            for r in c.proto.iter_mut().filter(|r| r.prefix.is_some()) {
+                                r.prefix = Some(String::new());
                             }
                         }
                         let exp = prog::expected_scene(&p);
